@@ -791,6 +791,8 @@ def builtin (fn : String) (args : List Val) : Option (M Val) :=
   | "list", [.list l] => some (M.pure (.list l))
   | "list", [.dict ks _] => some (M.pure (.list ks))
   | "range", [.int (.lit n)] => some (M.pure (.list (rangeList n.toNat)))
+  | "range", [.int (.lit a), .int (.lit b)] =>
+    some (M.pure (.list ((List.range (b - a).toNat).map (fun (i : Nat) => Val.int (.lit (a + Int.ofNat i))))))
   | "math.floor", [v] => some (match v with
       | .num x => M.pure (.int (.floor x)) | .int i => M.pure (.int i) | _ => M.fail (.raise "TypeError"))
   | "math.ceil", [v] => some (match v with
